@@ -19,8 +19,11 @@ import (
 	"net/url"
 	"os"
 	"strings"
+	"sync"
 	"time"
 )
+
+var vfLibMu sync.Mutex // guards the tape cursors and result lists (replays of concurrent harnesses)
 
 type vfTapeT struct {
 	Harness string                 `json:"harness"`
@@ -47,10 +50,13 @@ func vfLoadTape(path string) error {
 	vfTape = vfTapeT{}
 	vfOcc = map[string]int{}
 	vfFailed, vfAssumeKO, vfMissing = nil, nil, nil
+	vfSchedPos, vfSchedBroken = 0, false
 	return json.Unmarshal(b, &vfTape)
 }
 
 func vfNext(tag string) (interface{}, bool) {
+	vfLibMu.Lock()
+	defer vfLibMu.Unlock()
 	k := vfOcc[tag]
 	vfOcc[tag] = k + 1
 	key := fmt.Sprintf("%s#%d", tag, k)
@@ -146,7 +152,9 @@ type vfAssumeFailed struct{ label string }
 
 func vfAssert(c bool, label string) {
 	if !c {
+		vfLibMu.Lock()
 		vfFailed = append(vfFailed, label)
+		vfLibMu.Unlock()
 	}
 }
 
@@ -154,8 +162,87 @@ func vfCover(label string)  {}
 func vfNote(note string)    {}
 func vfAllowPanic(b bool)   {}
 func vfHangCheck(b bool)    {}
+func vfOpaqueItoa(b bool)   {}
 func vfYield()              {}
-func vfThreads(mode int)    {}
+func vfThreads(bound int)   {}
+
+// ---- concurrency (replay side).  The engine explores interleavings at scheduling points; the
+// recorded order in which threads passed their vfGate points is re-imposed here on real goroutines.
+
+var (
+	vfSchedMu     sync.Mutex
+	vfSchedPos    int
+	vfSchedBroken bool
+	vfAtomicMu    sync.Mutex
+)
+
+func vfSchedule() []interface{} {
+	l, _ := vfTape.Values["schedule"].([]interface{})
+	return l
+}
+
+// vfGate blocks until the recorded schedule says this (kind,key) passes next; f runs before the
+// following gate may be passed.  Past the end of the recorded schedule (or when the recorded order
+// cannot be followed for 3 s) threads run freely.
+func vfGate(kind, key string, f func()) {
+	me := kind + ":" + key
+	sched := vfSchedule()
+	deadline := time.Now().Add(3 * time.Second)
+	for {
+		vfSchedMu.Lock()
+		if vfSchedBroken || vfSchedPos >= len(sched) {
+			break
+		}
+		if s, _ := sched[vfSchedPos].(string); s == me {
+			vfSchedPos++
+			break
+		}
+		if time.Now().After(deadline) {
+			vfSchedBroken = true
+			break
+		}
+		vfSchedMu.Unlock()
+		time.Sleep(200 * time.Microsecond)
+	}
+	if f != nil {
+		f()
+	}
+	vfSchedMu.Unlock()
+}
+
+// vfAwait blocks until cond() holds and then runs then() atomically with the test.
+func vfAwait(cond func() bool, then func()) {
+	for {
+		vfAtomicMu.Lock()
+		if cond() {
+			then()
+			vfAtomicMu.Unlock()
+			return
+		}
+		vfAtomicMu.Unlock()
+		time.Sleep(200 * time.Microsecond)
+	}
+}
+
+// vfAtomic runs f under the harness' global mutex.
+func vfAtomic(f func()) {
+	vfAtomicMu.Lock()
+	defer vfAtomicMu.Unlock()
+	f()
+}
+
+func vfSameBytes(a, b []byte) bool { return string(a) == string(b) }
+
+func vfCount(s string, list []string) int {
+	n := 0
+	for _, e := range list {
+		if e == s {
+			n++
+		}
+	}
+	return n
+}
+
 func vfLog(a ...interface{}) { fmt.Println(a...) }
 
 func vfParam(name string, def int) int {
